@@ -11,3 +11,4 @@ import PasskeyVerif.Props.C11
 import PasskeyVerif.Props.C02
 import PasskeyVerif.Props.C03
 import PasskeyVerif.Props.C09
+import PasskeyVerif.Props.C07
